@@ -276,8 +276,8 @@ PROPS["C17"] = {
     "assumptions": ["writes go to bound/added streams only", "the pacer stays open until the plan is drained"],
     "quick": [
         {"test": "^TestKnownOversizeHeadOfLine$", "timeout": 120},
-        {"test": "^TestPacingInterceptor$", "checks": 25, "shards": 4, "timeout": 400},
-        {"test": "^TestGCCPacers$", "checks": 25, "shards": 3, "timeout": 400},
+        {"test": "^TestPacingInterceptor$", "checks": 40, "shards": 8, "timeout": 400},
+        {"test": "^TestGCCPacers$", "checks": 40, "shards": 6, "timeout": 400},
     ],
     "thorough": [
         {"test": "^TestKnownOversizeHeadOfLine$", "timeout": 120},
